@@ -597,6 +597,15 @@ class ExperimentPackage(StorageStructurePathResolver):
                     sourceFolder, method = sourceFolder.rsplit(':', 1)
                     target_folder_path = os.path.join(targetPath, targetFolder)
 
+                    # VV: manifest entries must end up inside the instance directory (no ".." segments, no nested
+                    # entries that go through a previously linked entry)
+                    real_root = os.path.realpath(targetPath)
+                    real_target = os.path.realpath(target_folder_path)
+                    if real_target == real_root or os.path.commonpath([real_root, real_target]) != real_root:
+                        raise experiment.model.errors.PackageCreateError(
+                            ValueError("Manifest entry %s (%s) resolves outside the instance directory" % (
+                                targetFolder, sourceFolder)), targetPath, path)
+
                     if method == 'copy':
                         logger.info("Copying %s to %s" % (sourceFolder, targetFolder))
                         shutil.copytree(sourceFolder, target_folder_path)
